@@ -255,7 +255,9 @@ def impl(case):
         return ["SKIP"]
     mode = o["mode"]
     head = [1 if o["explicit"] else 0, 1 if o["implicit"] else 0, 1 if o["outside"] else 0, 1 if o["consistent"] else 0,
-            K.its_obs(o["tpl"])]
+            K.its_obs(o["tpl"]),
+            1,                 # pair_wfb: both parsed graphs are simple, on the same atoms with the same elements (recomputed by the model)
+            0 if any(d.get("element") == "H" for _, d in o["G"].nodes(data=True)) else 1]
     rule = o["rule"]
     obs = [head, [K.rc_obs(rule.rc.raw, mode == "E"), K.mol_obs(o["left"]), K.mol_obs(rule.right.raw)],
            1 if o["flag"] else 0, K.mol_obs(o["pat"]), K.mol_obs(o["host"]), 1 if o["id_in_raw"] else 0]
@@ -274,6 +276,7 @@ def impl(case):
     anyreg = 1 if any(rb is not None and rb[1] for rb in o["regen"]) else 0
     obs.append(anyreg)
     obs.append(anyreg if o["remaps"] is None else 0)
+    obs.append(anyreg if o["remaps"] is None else 0)      # its_list on [identity] (model)
     obs.append(1)              # wf_rcb rule.rc && wf_hostb substrate (recomputed by the model)
     return obs
 
